@@ -89,18 +89,25 @@ func (cache *MemoryCache[K, V]) Set(key K, value V, ttlSec float64) error {
 		"Setting cache key %v to value %+v with ttl %v", key, value, ttlSec)
 	ensureCacheInitialized(cache)
 
+	// The size settings can be changed concurrently (WithMaxCacheSize), so they
+	// are read under the lock. This first check is only a cheap early exit that
+	// saves the value allocation; the limit is enforced again below, inside the
+	// critical section that inserts the entry.
+	cache.mutex.RLock()
+	calculateSizeFunc := cache.calculateSizeFunc
+	shouldCalculateSize := cache.calculateCacheSize && calculateSizeFunc != nil
+	maxCacheSize := cache.maxCacheSize
+	currentCacheSize := cache.currentCacheSize
+	cache.mutex.RUnlock()
+
 	itemSize := float64(0)
-	if cache.calculateCacheSize && cache.calculateSizeFunc != nil {
-		// We might miss here a momentary case of adding 2 messages when
-		// there is enough place for only one.
-		// The choice to put the check outside of the lock is intentional,
-		// we are 'saving' value allocation and lock by checking the size first
-		itemSize = cache.calculateSizeFunc(key, value)
-		if cache.currentCacheSize+itemSize > cache.maxCacheSize {
+	if shouldCalculateSize {
+		itemSize = calculateSizeFunc(key, value)
+		if currentCacheSize+itemSize > maxCacheSize {
 			return fmt.Errorf(
 				"Cannot add item: max cache size would be exceeded."+
 					" Current cache size is %v",
-				cache.currentCacheSize)
+				currentCacheSize)
 		}
 	}
 
@@ -141,6 +148,8 @@ func (cache *MemoryCache[K, V]) Del(key K) {
 func (cache *MemoryCache[K, V]) WithMaxCacheSize(
 	calculateSizeFunc func(K, V) float64, maxCacheSize float64,
 ) {
+	cache.mutex.Lock()
+	defer cache.mutex.Unlock()
 	cache.calculateCacheSize = true
 	cache.calculateSizeFunc = calculateSizeFunc
 	cache.maxCacheSize = maxCacheSize
